@@ -18,3 +18,4 @@ func TestC13(t *testing.T) { simkit.Main(t, SpecC13()) }
 func TestC16(t *testing.T) { simkit.Main(t, SpecC16()) }
 func TestC17(t *testing.T) { simkit.Main(t, SpecC17()) }
 func TestC18(t *testing.T) { simkit.Main(t, SpecC18()) }
+func TestC37(t *testing.T) { simkit.Main(t, SpecC37()) }
